@@ -57,3 +57,14 @@ Definition ahex_decode_pinned (data : bytes) : res bytes :=
     let st' := if Nat.odd (eod_index data 0) then st ++ [48%N] else st in
     match hex2bin st' 0 with Some o => Ok o | None => Err ETransform end
   end.
+
+(* after the C06 repairs (/repo b13e12b): parity from the number of staged digits, output buffer of
+   stage.len() / 2 bytes *)
+Definition ahex_decode (data : bytes) : res bytes :=
+  match ahex_stage data with
+  | None => Err ETransform
+  | Some (_, false) => Err ETransform
+  | Some (st, true) =>
+    let st' := if Nat.odd (len st) then st ++ [48%N] else st in
+    match hex2bin st' (len st' / 2) with Some o => Ok o | None => Err ETransform end
+  end.
